@@ -1,4 +1,5 @@
 import ActixNet.Lemmas.Avail
+import ActixNet.Lemmas.SrvRR
 /-!
 # C04 — dispatch is round-robin over available workers only; availability bits are independent
 
@@ -48,5 +49,46 @@ theorem default_none_available : available ({} : Avail) = false := by decide
 example : get ({ w2 := 1 <<< 44 } : Avail) 300 = some true ∧ get ({ w2 := 1 <<< 44 } : Avail) 5 = some false := by
   decide
 example : (set ({ w0 := 32 } : Avail) 300 true).bind (fun a => get a 5) = some true := by decide
+
+
+/-! ## Part 2: dispatch order over the accept-loop model (`ActixNet.Srv`, fault-free histories, any
+schedule of other threads' actions at the yield points) -/
+open ActixNet.Srv
+
+/-- **round robin**: a connection handed to `accept_one` while the worker at the rotation cursor is
+marked available goes to exactly that worker, and the cursor advances by one modulo the number of
+workers — whatever other threads do inside the send/increment window. -/
+theorem dispatch_goes_to_cursor (cfg : Cfg) (ok : CfgOk cfg) (fuel : Nat) (s : St) (c : Conn)
+    (h : AccInv cfg s) (hnf : s.fault = none) (hav : s.avail s.next = true) :
+    (acceptOne cfg (fuel + 1) s c).dispatched = s.dispatched ++ [(c, s.next)] ∧
+    (acceptOne cfg (fuel + 1) s c).next = (s.next + 1) % cfg.nIdx :=
+  acceptOne_dispatches_to_cursor ok fuel s c h hnf hav
+
+/-- consequently, while no worker is saturated (every cursor position met is available), any
+`k ≤ W` consecutive dispatches go to the cursor positions `next, next+1, …` — pairwise distinct workers -/
+theorem rr_distinct (W next k : Nat) (hk : k ≤ W) : ((List.range k).map (fun j => (next + j) % W)).Nodup :=
+  cursor_positions_distinct W next k hk
+
+/-- **a saturated (not-available) worker is skipped and receives nothing**: `accept_one` only moves
+the cursor past it -/
+theorem saturated_worker_is_skipped (cfg : Cfg) (ok : CfgOk cfg) (fuel : Nat) (s : St) (c : Conn)
+    (h : AccInv cfg s) (hnf : s.fault = none) (hav : s.avail s.next = false) (hany : anyAvail cfg s = true) :
+    acceptOne cfg (fuel + 1) s c = acceptOne cfg fuel { s with next := (s.next + 1) % cfg.nIdx } c :=
+  acceptOne_skips_unavailable ok fuel s c h hnf hav hany
+
+/-- and "not available" means really saturated, unless a wake-up is pending (C03); "available" means
+spare capacity (C02) — so skipping is exact -/
+theorem available_iff_capacity_modulo_wakeup (cfg : Cfg) (s : St) (g : Good cfg s) (hp : s.pend = none) (w : Nat)
+    (hw : w < cfg.nIdx) :
+    (s.avail w = true → (s.wk w).queue.length + (s.wk w).inflight.length < cfg.limit) ∧
+    (s.avail w = false → tokOf s.wk s.wq w = 0 → (s.wk w).queue.length + (s.wk w).inflight.length = cfg.limit) := by
+  have gw := g.2 w hw
+  have hp' : (core s).pend = none := hp
+  simp only [GoodWC, hp', pendIs_none] at gw
+  unfold GW at gw
+  simp only [qOf, core, Bool.false_eq_true, ↓reduceIte] at gw
+  refine ⟨fun h => ?_, fun h ht => ?_⟩
+  · have := gw.2.1 h; omega
+  · have := gw.2.2.2.2.1 h ht; omega
 
 end ActixNet.C04
